@@ -147,6 +147,11 @@ fn main() {
                 None => println!("none"),
             }
         }
+        Some("dbg-c10") => {
+            let path = args.get(2).cloned().unwrap_or_else(|| usage());
+            let (_, input) = load_replay(&path).unwrap();
+            props::c10::debug_dump(&input);
+        }
         Some("rt") => {
             // rt <in.wasm> <out.wasm> [dwarf] [gc]
             let path = args.get(2).cloned().unwrap_or_else(|| usage());
